@@ -877,7 +877,7 @@ func TestVerifC17(t *testing.T) {
 
 	rnd := vfNewRand(out.Seed)
 	rh := rnd.Fork(1)
-	n := out.Scale(200, 6000)
+	n := out.Scale(200, 1500)
 	for i := 0; i < n; i++ {
 		pats := sets[rh.Intn(len(sets))]
 		if rh.Chance(1, 3) {
@@ -889,7 +889,7 @@ func TestVerifC17(t *testing.T) {
 
 	// validateFilterURL and reader alone, every pattern set.
 	rv := rnd.Fork(2)
-	per := out.Scale(24, 700)
+	per := out.Scale(24, 150)
 	for _, pats := range sets {
 		d, err := c17New(t, dataDir, pats, nil, nil)
 		if err != nil {
@@ -907,7 +907,7 @@ func TestVerifC17(t *testing.T) {
 
 	// differential streams
 	rg := rnd.Fork(3)
-	n = out.Scale(2000, 60000)
+	n = out.Scale(2000, 30000)
 	for i := 0; i < n; i++ {
 		c17EmitGlob(out, c17GenPattern(rg), c17GenName(rg))
 	}
@@ -919,7 +919,7 @@ func TestVerifC17(t *testing.T) {
 		}
 	}
 	rc := rnd.Fork(4)
-	n = out.Scale(600, 15000)
+	n = out.Scale(600, 8000)
 	for i := 0; i < n; i++ {
 		loc, _ := c17Loc(rc, tr)
 		if rc.Bool() {
